@@ -74,17 +74,11 @@ def gen_covmat(ctx, k):
     return py, sxc
 
 def covmat_key(py):
-    k = []
-    if py['db2'] is not None: k.append('db2')
-    if py['db1']['sel'] or (py['db2'] and py['db2']['sel']): k.append('sel')
-    if any(x is None for col in py['db1']['z'] for x in col): k.append('hetero')
+    """option combination that selects the code path (coarse on purpose: one key per defect, not per random case)"""
+    k = ['db2' if py['db2'] is not None else 'db1']
+    if any(s[2] or s[3] for s in py['model']['structs']): k.append('aniso')
     if py['nbgh1'] or py['nbgh2']: k.append('nbgh')
-    if py['ivar0'] >= 0 or py['jvar0'] >= 0: k.append('onevar')
-    if py['nvar'] > 1: k.append('multivar')
-    if any(s[2] for s in py['model']['structs']): k.append('aniso')
-    if any(s[3] for s in py['model']['structs']): k.append('rot')
-    if len(py['model']['structs']) > 1: k.append('nested')
-    return '+'.join(k) or 'plain'
+    return '+'.join(k)
 
 def layout_py(py, sym):
     """reference layout (row list, column list of (ivar, iech)) -- python mirror; the check uses the Coq model's when available"""
